@@ -119,6 +119,12 @@ Qed.
 Lemma memZ_true x l : memZ x l = true -> In x l.
 Proof. unfold memZ. intros H. apply existsb_exists in H. destruct H as (y & HI & E). apply Z.eqb_eq in E. subst. exact HI. Qed.
 
+Lemma nodupb_NoDup l : nodupb l = true -> NoDup l.
+Proof.
+  induction l as [|x r IH]; cbn [nodupb]; intros H; [constructor|].
+  apply andb_prop in H. destruct H as [Hx Hr]. apply negb_true_iff in Hx. constructor; [apply memZ_false; exact Hx|apply IH; exact Hr].
+Qed.
+
 Lemma let_subst_sound id sv : forall ps args S ps2 args2 S2 vs s s2 r r',
   let_subst id sv ps args S = (ps2, args2, S2) ->
   length ps = length args ->
@@ -242,10 +248,11 @@ Proof.
   - (* Lit *) cbn in *. inversion Hev; subst. exists r'. split; [reflexivity|exact Hag].
   - (* Obj *) cbn in *. inversion Hev; subst. exists r'. split; [reflexivity|exact Hag].
   - (* Ref *)
-    cbn [eval fst] in Hev. inversion Hev; subst. cbn [simplify]. destruct Hag as [A1 A2].
+    cbn [eval fst] in Hev. apply pair_equal_spec in Hev. destruct Hev as [Hv Hs]. inversion Hs; subst r1 o1.
+    cbn [simplify]. destruct Hag as [A1 A2].
     destruct (lookup_subst x l S) as [c|] eqn:EL.
-    + exists r'. cbn [eval]. rewrite (A1 _ _ _ EL) in H3. rewrite <- H3. split; [reflexivity|split; assumption].
-    + exists r'. cbn [eval fst]. rewrite <- (A2 _ _ EL), H3. split; [reflexivity|split; assumption].
+    + exists r'. cbn [eval]. rewrite (A1 _ _ _ EL) in Hv. rewrite <- Hv. split; [reflexivity|split; assumption].
+    + exists r'. cbn [eval fst]. rewrite <- (A2 _ _ EL), Hv. split; [reflexivity|split; assumption].
   - (* SetE *)
     cbn [eval] in Hev. destruct (eval e (r, o)) as [[c|] [r2 o2]] eqn:Ee; [|discriminate].
     destruct (lookup x l r2) eqn:ELk; [|discriminate]. inversion Hev; subst.
